@@ -1091,7 +1091,22 @@ class Interp:
                 return self.instantiate(f, args, kwargs)
         w = getattr(f, "__wrapped__", None)
         if w is not None and isinstance(w, types.FunctionType) and loader.is_repo_function(w):
-            # functools.lru_cache / wraps: transparent on immutable keys
+            # functools.lru_cache / cache: the wrapped body runs through the interpreter, and a second call with the same
+            # (hashable) arguments on this path returns the very same object, as the real wrapper does (it matters when
+            # the result is mutable); other functools.wraps-style wrappers are taken as transparent
+            if hasattr(f, "cache_info") and hasattr(f, "cache_clear"):
+                try:
+                    mk = (id(f), tuple(args), tuple(sorted(kwargs.items())))
+                    hash(mk)
+                except TypeError:
+                    mk = None
+                memo = self.__dict__.setdefault("_lru_memo", {})
+                if mk is not None and mk in memo:
+                    return memo[mk]
+                r = self.call_repo_function(w, args, kwargs)
+                if mk is not None:
+                    memo[mk] = r
+                return r
             return self.call_repo_function(w, args, kwargs)
         if isinstance(f, z3.FuncDeclRef):
             return self.call_funcdecl(f, args)
@@ -2598,8 +2613,9 @@ class GhostDataView(GhostData):
 
 def _ghostdata_getitem(interp, d, key):
     if isinstance(key, slice):
-        if key.step is not None or key.start is None or key.stop is None:
+        if key.step is not None:
             raise Unmodelled("slice form on ghost data")
+        key = slice(0 if key.start is None else key.start, d.n if key.stop is None else key.stop)  # data[a:], data[:b]
         a, b = iexpr(key.start), iexpr(key.stop)
         if not interp.truth(SymBool(z3.And(a >= 0, a <= b, b <= iexpr(d.n)))):
             raise Unmodelled("slice of ghost data outside 0 <= start <= stop <= len (python would clamp)")
